@@ -759,7 +759,10 @@ def prof_collide(g, n):
         bitflag(objs)
         cfg = {"register_address_type": "i32", "command_address_type": "i32", "buffer_address_type": "i32",
                "default_byte_order": "LE"}
-        out.append(case({"config": cfg, "objects": objs}, pick_syntax(g, (7, 2, 1, 1)), "collide"))
+        adef = {"config": cfg, "objects": objs}
+        if g.chance(0.4):
+            adef["item_order"] = "rev"
+        out.append(case(adef, pick_syntax(g, (7, 2, 1, 1)), "collide"))
     return out
 
 
@@ -1159,8 +1162,11 @@ def describe(g, o):
         o["description"] = g.pick(["A thing", "Control register", "x", "Second line\nof docs"]) if False else g.pick(["A thing", "Control register", "x"])
 
 
-def common_fragment_adef(g, rich=True):
-    """A whole device restricted to what all four syntaxes can express identically."""
+def common_fragment_adef(g, rich=True, big_reset=False):
+    """A whole device restricted to what all four syntaxes can express identically.
+    `big_reset`: integer reset values may reach 2^63..2^64-1 (TOML integers stop at 2^63-1; the adef is then marked
+    `"no_toml": True`; YAML writes such a value as a `0b…` string, which is what its reader converts)."""
+    flags = {}
     g.reset_names()
     objs, span = build_tree(g, depth=2, n_top=(1, 4), repeat_p=0.35, ref_p=0.25, cfg_p=0.2, block_p=0.3, neg=True,
                             field_kw={"conv_p": 0.3, "cfg_p": 0.15, "access_p": 0.3}, block_ref_p=0.0)
@@ -1182,11 +1188,17 @@ def common_fragment_adef(g, rich=True):
                     f["end"] = f["start"] + 1
         if o["kind"] == "register" and g.chance(0.3):
             n = (o["size_bits"] + 7) // 8
-            if g.chance(0.5) and o["size_bits"] <= 64:
-                # a value without bits above the size, in any order combination: low bits only when LSB0/LE-safe
-                o["reset"] = {"array": [0] * n} if o["size_bits"] % 8 else {"int": str(g.r.getrandbits(min(o["size_bits"], 63)))}
-                if o.get("bit_order") == "MSB0" or True:
-                    o["reset"] = {"array": [0] * n}
+            if g.chance(0.6) and o["size_bits"] <= 64:
+                # an integer without bits above the size (that is a rejection, C08's business)
+                v = g.r.getrandbits(o["size_bits"])
+                if g.chance(0.3):
+                    v |= 1 << (o["size_bits"] - 1)
+                if v >= 1 << 63:
+                    if big_reset:
+                        flags["no_toml"] = True
+                    else:
+                        v &= (1 << 63) - 1
+                o["reset"] = {"int": str(v)}
             else:
                 o["reset"] = {"array": [0] * n}
         if o["kind"] in ("register", "command") and not o.get("basic"):
@@ -1216,14 +1228,20 @@ def common_fragment_adef(g, rich=True):
         adef["spell"] = "alt"          # inclusive ranges (DSL), ReadWrite / ReadOnly / WriteOnly (all syntaxes)
     if g.chance(0.35):
         adef["config_pos"] = g.pick(["middle", "last"])   # manifests are maps: `config` need not be the first key
+    if g.chance(0.4):
+        adef["item_order"] = "rev"     # DSL bodies list their `const` / `type` items in any order
+    adef.update(flags)
     return adef
 
 
 def prof_four_syntaxes(g, n):
     out = []
     for i in range(n):
-        adef = common_fragment_adef(g)
+        adef = common_fragment_adef(g, big_reset=True)
+        no_toml = adef.pop("no_toml", False)
         for syn in SYNTAXES:
+            if no_toml and syn == "toml":
+                continue          # the number cannot be written in TOML at all
             out.append(case(copy.deepcopy(adef), syn, "four", group=i, want_mir=True, want_tokens=True))
     return out
 
